@@ -30,6 +30,7 @@ structure Quiet (s : Sys) : Prop where
   sent : s.sent = []
   appended : s.appended = []
   dropped : s.dropped = []
+  deadDropped : s.deadDropped = []
   spawned : s.spawned = []
   spawnNotified : s.spawnNotified = []
   reported : s.reported = []
@@ -45,7 +46,7 @@ structure Started (s : Sys) : Prop extends Quiet s where
 
 theorem preStart_init (n : Nat) (prog : Prog) (req : Nat) (hn : 0 < n) (hwf : ProgWF prog) : PreStart (Sys.init n prog req) := by
   refine { npos := hn, nofault := rfl, progwf := hwf, router := rfl, pending := rfl, nextPid := rfl, results := rfl, evtQ := fun _ => rfl,
-           cmdOther := ?_, sent := rfl, appended := rfl, dropped := rfl, spawned := rfl, spawnNotified := rfl,
+           cmdOther := ?_, sent := rfl, appended := rfl, dropped := rfl, deadDropped := rfl, spawned := rfl, spawnNotified := rfl,
            reported := rfl, learned := rfl, wk := rfl, cmd0 := ⟨2, req, rfl⟩ }
   intro w hw c hc
   simp only [Sys.init, hw, if_false] at hc
@@ -130,7 +131,7 @@ theorem PreStart.micro {s : Sys} (h : PreStart s) (R : Rules) (m : Micro) :
         simp only [hp, Proc.sleeping, Proc.fresh]
         refine { npos := h.npos, nofault := h.nofault, progwf := h.progwf, router := h.router, pending := h.pending, nextPid := h.nextPid,
                  results := h.results, evtQ := h.evtQ, cmdOther := ?_, sent := h.sent, appended := h.appended,
-                 dropped := h.dropped, spawned := h.spawned, spawnNotified := h.spawnNotified, reported := h.reported,
+                 dropped := h.dropped, deadDropped := h.deadDropped, spawned := h.spawned, spawnNotified := h.spawnNotified, reported := h.reported,
                  learned := h.learned, wk := ?_, cmd0 := ⟨req, by simp⟩ }
         · intro w hw c hc
           have hc' : c ∈ upd s.cmdQ 0 [Cmd.getResult req 0] w := hc
